@@ -95,7 +95,9 @@ void VM<FO>::do_log(int tid, int opi, Op const& op)
   size_t const cap_before = thread_logged[static_cast<size_t>(tid)] ? Fe::get_thread_local_queue_capacity() : 0;
   bool const first_call = !thread_logged[static_cast<size_t>(tid)];
   sim::AllocCounters const alloc_before = sim::alloc_counters();
+  int const slot_clock = s->clock;
   sim::mark_clock_read();
+  UserClock::mark();
   QUILL_TRY
   {
     switch (site)
@@ -178,7 +180,9 @@ void VM<FO>::do_log(int tid, int opi, Op const& op)
   sim::AllocCounters const alloc_after = sim::alloc_counters();
   size_t const cap_after = result == -1 ? 0 : Fe::get_thread_local_queue_capacity();
   // (d = the first wall clock value this thread read inside the call: the timestamp a system-clock statement must carry)
-  record(EV_LOG_RETURN, id, result, static_cast<int64_t>(cap_after), static_cast<int64_t>(sim::first_clock_read()));
+  uint64_t const first_user = UserClock::first();
+  uint64_t const first_sys = sim::first_clock_read();
+  record(EV_LOG_RETURN, id, result, static_cast<int64_t>(cap_after), static_cast<int64_t>(slot_clock == 2 ? first_user : first_sys));
   if (result == 1 && site <= 3 && fb == 0)
   {
     // C11: allocations on the calling thread around the call (flags as for the typed sites; bits 8.. = capacity before)
